@@ -125,7 +125,7 @@ def streams(seed, tier):
         st = state(float=[fbits(4.0)], cfg=cfg(maxf=hi, minf=lo))
         cases.append(case(rng.randrange(2), 7, base * 2, [st], tape(rng)))
         cases.append(case(rng.randrange(2), 11, base * 2, [st, [], S("FLOAT.RAND"), 0, [], 0], tape(rng)))
-    for nb in (0, 1, 5):
+    for nb in (0, 1, 11, 5, 15, 1, 15, 11):       # tables of equal size and different names follow each other
         st = state(name=["keep"], bind=BINDS[nb])
         cases.append(case(rng.randrange(2), 10, base * 3, [st], tape(rng)))
         cases.append(case(rng.randrange(2), 11, base * 3, [st, [], S("NAME.RANDBOUNDNAME"), 0, [], 0], tape(rng)))
